@@ -1,5 +1,7 @@
 package main
 
+import "strings"
+
 // Property table: which harnesses decide which property, with which bounds per tier.
 
 type Unit struct {
@@ -16,6 +18,23 @@ type Unit struct {
 	MaxPaths     int
 	Only         string // only checks whose id starts with this prefix belong to the property
 	SameEmits    bool   // all explored paths of one Cover class must emit identical files (C12)
+	OnlySuffix   []string // ... or whose id ends with one of these (a unit shared with another property)
+}
+
+// owns: the check id belongs to the property this unit is registered under.
+func (u Unit) owns(id string) bool {
+	if u.Only == "" && len(u.OnlySuffix) == 0 {
+		return true
+	}
+	if u.Only != "" && strings.HasPrefix(id, u.Only) {
+		return true
+	}
+	for _, sfx := range u.OnlySuffix {
+		if strings.HasSuffix(id, sfx) {
+			return true
+		}
+	}
+	return false
 }
 
 // ---- shared L3 units (HarnessL3: whole generator on a symbolic schema + emitted code on a
@@ -161,6 +180,18 @@ func init() {
 		l3Unit("enums-in-arrays-and-objects", map[string]int{"KINDS": 48, "DEPTH": 1, "ITEMKINDS": 4288}, "C08.", "enums as array items and object members"),
 	}})
 	reg(&Property{ID: "C19", Units: l3All("C19.")})
+	// the validator kernels of C04-C07 also decide "no panic" and "receiver unchanged on error"
+	// for every nil-guard / index expression they emit: C19 owns those two checks of each
+	for _, src := range []string{"C04", "C05", "C06", "C07"} {
+		for _, u := range properties[src].Units {
+			if u.Layer != "L2" || u.OnlyThorough {
+				continue
+			}
+			u.Name = "validator-kernels/" + u.Name
+			u.OnlySuffix = []string{".no-panic", ".receiver-unchanged-on-error"}
+			properties["C19"].Units = append(properties["C19"].Units, u)
+		}
+	}
 	reg(&Property{ID: "C09", Units: []Unit{
 		{Name: "defaults", Harness: "pkg/generator:HarnessC09", Layer: "L3",
 			Desc:   "whole generator on properties with a default (string, number, integer, boolean, string enum, array of strings; nullable or not; required or not; with symbolic constraints that admit the default); emitted code on a symbolic document: absent or null member accepted and the decoded field equals the default, present value kept, default literal type-checks in its field",
@@ -171,8 +202,8 @@ func init() {
 	reg(&Property{ID: "C17", Units: []Unit{
 		{Name: "yaml-vs-json/scalars-and-string-enums", Harness: "pkg/generator:HarnessC17", Layer: "L3",
 			Desc:   "generator with --extra-imports; both emitted methods of every type run symbolically on the same symbolic type-correct document (valid, or violating required/bound/length/pattern/string-enum rules): same verdict, equal decoded values",
-			Bounds: "shapes: string/number/integer/boolean/string-enum properties x nullable x required x inline/$ref x with/without default; default tag set; yaml.v3 and encoding/json decode stubs agree on type-correct input (assumption, validated on replay)",
-			Quick:  map[string]int{"GRID": 2, "GRIDMAG": 36, "N": 2, "DEFAULTS": 1, "NUMSHAPES": 5},
+			Bounds: "shapes: string/number/integer/boolean/string-enum/string-or-null-enum properties x nullable x required x inline/$ref x with/without default; default tag set; yaml.v3 and encoding/json decode stubs agree on type-correct input (assumption, validated on replay)",
+			Quick:  map[string]int{"GRID": 2, "GRIDMAG": 36, "N": 2, "DEFAULTS": 1, "NUMSHAPES": 5, "KINDS": 4175},
 			Panic:  "inconclusive"},
 		{Name: "yaml-vs-json/arrays-and-objects", Harness: "pkg/generator:HarnessC17", Layer: "L3",
 			Desc:   "same for arrays of scalars and a nested object",
